@@ -134,6 +134,47 @@ func init() {
 		st.assume(Implies(famHas(cl, c.T(2)), Eq(FieldByName(v, "Id"), c.T(2))))
 		return &TupleVal{[]Val{Ite(famHas(cl, c.T(2)), v, ZeroOf(s)), famHas(cl, c.T(2))}}
 	}
+	// listings (A-NFT): GetClasses returns every stored class exactly once, GetNFTsOfClass every token of the class
+	// exactly once, in some fixed order (nft_class_pos / nft_token_pos are the positions)
+	theory[pNK+"GetClasses"] = func(x *Exec, f *Frame, st *State, c *CallInfo) Val {
+		ls := SortOf(c.ResTyp)
+		if ls == nil || !isSliceSort(ls) || !isPtrSort(ls.Fields[1].Sort.Elem) {
+			return x.freshVal(st, c.ResTyp, "classes")
+		}
+		cs := ls.Fields[1].Sort.Elem.Fields[1].Sort
+		cl := classesOf(x, st, cs)
+		l := x.freshTerm("nft_classes_list", ls)
+		n := SelField(l, 0)
+		st.assume(Ge(n, IntLit(0)))
+		j := NewBound("j", SInt)
+		ej := Select(SelField(l, 1), j)
+		idj := FieldByName(SelField(ej, 1), "Id")
+		st.assume(Forall(j, Implies(And(Ge(j, IntLit(0)), Lt(j, n)), And(Not(SelField(ej, 0)), famHas(cl, idj), Eq(SelField(ej, 1), famGet(cl, idj)), Eq(UF("nft_class_pos", SInt, l, idj), j)))))
+		k := NewBound("k", SStr)
+		pk := UF("nft_class_pos", SInt, l, k)
+		st.assume(Forall(k, Implies(famHas(cl, k), And(Ge(pk, IntLit(0)), Lt(pk, n), Eq(FieldByName(SelField(Select(SelField(l, 1), pk), 1), "Id"), k)))))
+		return l
+	}
+	theory[pNK+"GetNFTsOfClass"] = func(x *Exec, f *Frame, st *State, c *CallInfo) Val {
+		ls := SortOf(c.ResTyp)
+		class := c.T(2)
+		if ls == nil || !isSliceSort(ls) || class == nil {
+			return x.freshVal(st, c.ResTyp, "nfts")
+		}
+		ts := ls.Fields[1].Sort.Elem
+		toks := tokensOf(x, st, ts)
+		l := UF("nft_tokens_list<"+ls.Name+">", ls, toks, class)
+		n := SelField(l, 0)
+		st.assume(Ge(n, IntLit(0)))
+		j := NewBound("j", SInt)
+		ej := Select(SelField(l, 1), j)
+		kj := nftKey(class, FieldByName(ej, "Id"))
+		st.assume(Forall(j, Implies(And(Ge(j, IntLit(0)), Lt(j, n)), And(Eq(FieldByName(ej, "ClassId"), class), famHas(toks, kj), Eq(ej, famGet(toks, kj)), Eq(UF("nft_token_pos", SInt, l, FieldByName(ej, "Id")), j)))))
+		k := NewBound("k", SStr)
+		pk := UF("nft_token_pos", SInt, l, k)
+		st.assume(Forall(k, Implies(famHas(toks, nftKey(class, k)), And(Ge(pk, IntLit(0)), Lt(pk, n), Eq(FieldByName(Select(SelField(l, 1), pk), "Id"), k)))))
+		return l
+	}
 	theory[pNK+"HasClass"] = func(x *Exec, f *Frame, st *State, c *CallInfo) Val {
 		cl := st.world.get("nftClasses")
 		if cl == nil {
